@@ -104,13 +104,13 @@ contract(MT + "MatchWithError.run", props=P, params={"self": "ref:MatchWithError
          doc="always raises StepParseError (the stored conversion error is reported by Step.run as an error)")
 
 # -- Match.run: positional / keyword split ---------------------------------------------------
-ghost("calls", "int")
-ghost("last_args", "val")
-ghost("last_kwargs", "val")
+ghost("sf_calls", "int")
+ghost("sf_last_args", "val")
+ghost("sf_last_kwargs", "val")
 oracle("n_unnamed", ["ref", "int"], "int")     # number of anonymous arguments among the first k
 contract("user:step_function", trusted=True, pos_params=["context"], vararg="args", kwarg="kwargs",
-         modifies=["G_calls", "G_last_args", "G_last_kwargs"],
-         ensures={"recorded": "G_calls == old(G_calls) + 1 and G_last_args is args and G_last_kwargs is kwargs"},
+         modifies=["G_sf_calls", "G_sf_last_args", "G_sf_last_kwargs"],
+         ensures={"recorded": "G_sf_calls == old(G_sf_calls) + 1 and G_sf_last_args is args and G_sf_last_kwargs is kwargs"},
          doc="the user's step function: ghost record of the call (A-user: returns normally here; exceptions are Step.run's business)")
 contract("ctx:user_mode.enter", trusted=True, pos_params=[], pure=True, doc="context.use_with_user_mode() enter")
 contract("ctx:user_mode.exit", trusted=True, pos_params=[], pure=True, doc="context.use_with_user_mode() exit")
@@ -119,7 +119,7 @@ contract(MT + "Match.run", props=P, params={"self": "ref:Match", "context": "any
          self_classes=["Match"],
          callsites={"self.func": "user:step_function"},
          with_items={"context.use_with_user_mode()": ("ctx:user_mode.enter", "ctx:user_mode.exit")},
-         modifies=["G_calls", "G_last_args", "G_last_kwargs"],
+         modifies=["G_sf_calls", "G_sf_last_args", "G_sf_last_kwargs"],
          assume={"definition-of-n_unnamed":
                  "n_unnamed(self, 0) == 0 and forall(lambda k: implies(0 <= k < len(%s), n_unnamed(self, k + 1) == "
                  "n_unnamed(self, k) + (1 if %s[k].name is None else 0)))" % (ARGS, ARGS),
@@ -134,14 +134,14 @@ contract(MT + "Match.run", props=P, params={"self": "ref:Match", "context": "any
              "same": "_seq is self.arguments and 0 <= n_unnamed(self, _i) <= _i",
          })],
          ensures={
-             "called-exactly-once": "G_calls == old(G_calls) + 1",
+             "called-exactly-once": "G_sf_calls == old(G_sf_calls) + 1",
              "anonymous-parameters-by-position-in-text-order":
-                 "len(as_list(G_last_args, 'any')) == n_unnamed(self, len(%s)) and "
+                 "len(as_list(G_sf_last_args, 'any')) == n_unnamed(self, len(%s)) and "
                  "forall(lambda k: implies(0 <= k < len(%s) and %s[k].name is None, "
-                 "as_list(G_last_args, 'any')[n_unnamed(self, k)] == %s[k].value))" % (ARGS, ARGS, ARGS, ARGS),
+                 "as_list(G_sf_last_args, 'any')[n_unnamed(self, k)] == %s[k].value))" % (ARGS, ARGS, ARGS, ARGS),
              "named-parameters-by-keyword":
-                 "forall(lambda k: implies(0 <= k < len(%s) and %s[k].name is not None, has_key(G_last_kwargs, %s[k].name)))"
-                 " and forall(lambda x: implies(has_key(G_last_kwargs, x), "
+                 "forall(lambda k: implies(0 <= k < len(%s) and %s[k].name is not None, has_key(G_sf_last_kwargs, %s[k].name)))"
+                 " and forall(lambda x: implies(has_key(G_sf_last_kwargs, x), "
                  "exists(lambda k: 0 <= k < len(%s) and %s[k].name == x)))" % (ARGS, ARGS, ARGS, ARGS, ARGS),
          })
 
